@@ -164,6 +164,9 @@ func (n *c11Node) SubmitProposalPreparations(_ context.Context, preps []*apiv1.P
 	if n.env.failing == "node1" && n.name == "node1" {
 		return errors.New("scripted node failure")
 	}
+	if n.env.failing == "node1-inactive" && n.name == "node1" {
+		return eth2client.ErrNotActive
+	}
 	for _, p := range preps {
 		n.preps = append(n.preps, c11Prep{round: n.env.round, index: p.ValidatorIndex, fee: strings.ToLower(p.FeeRecipient.String())})
 	}
@@ -225,7 +228,7 @@ func (m *c11Majordomo) Fetch(_ context.Context, _ string) ([]byte, error) {
 
 func c11Units(tier string) []hx.Unit {
 	docs := c11Docs()
-	fails := []string{"", "relay1", "node1", "signer2"}
+	fails := []string{"", "relay1", "node1", "signer2", "node1-inactive"}
 	rounds := 3
 	var units []hx.Unit
 	for d0 := range docs {
@@ -394,7 +397,7 @@ func c11Check(e *c11Env, r *mc.Result) mc.Verdict {
 			}
 			// proposal preparations to every beacon node
 			for _, n := range e.nodes {
-				if failing == "node1" && n.name == "node1" {
+				if (failing == "node1" || failing == "node1-inactive") && n.name == "node1" {
 					continue
 				}
 				var got []c11Prep
@@ -464,7 +467,7 @@ func init() {
 	hx.Register(&hx.Prop{
 		ID:    "C11",
 		Title: "Relays and beacon nodes are told exactly what the configuration says",
-		Rule: "histories of 1..3 registration rounds on the real block relay + proposal preparer with 3 validators, 2 relays, 2 beacon nodes: per round the configuration in force (5 documents: plain, relay gas-limit override, proposer entry with own fee recipient and a disabled relay, single relay, one validator unresolvable) x failing party (none, relay 1, node 1, signer for validator 2), a refresh preceding each round; then REST registrations for a controlled and an uncontrolled validator; fan-out goroutines under deviation-bounded schedules (quick 0, thorough 1); " +
+		Rule: "histories of 1..3 registration rounds on the real block relay + proposal preparer with 3 validators, 2 relays, 2 beacon nodes: per round the configuration in force (5 documents: plain, relay gas-limit override, proposer entry with own fee recipient and a disabled relay, single relay, one validator unresolvable) x failing party (none, relay 1, node 1, signer for validator 2, node 1 reporting not-active), a refresh preceding each round; then REST registrations for a controlled and an uncontrolled validator; fan-out goroutines under deviation-bounded schedules (quick 0, thorough 1); " +
 			"oracle: per round and relay exactly one registration per resolved validator with the resolved fee recipient / gas limit and a signature produced for exactly that content, a preparation per validator and node with the resolved fee recipient, other parties unaffected by a failing one; non-trivial = more than one round, a failing party or a proposer-specific document",
 		Assumptions: []string{
 			"expected settings per document are written out by hand from the documented precedence (C10 checks the resolver itself)",
